@@ -412,6 +412,8 @@ func modelViewLines(reply string) ([]string, error) {
 			}
 		case "sp":
 			lines = append(lines, fmt.Sprintf("sp %s %s: %s", a[1].Atom, a[2].Atom, a[3].Atom))
+		case "rc":
+			lines = append(lines, fmt.Sprintf("rc %s %s: %s", a[1].Atom, a[2].Atom, a[3].Atom))
 		default:
 			return nil, fmt.Errorf("unknown view entry %s", e.String())
 		}
